@@ -369,6 +369,7 @@ def run(chk, repo, tier):
     run_r11_r12(chk, repo)
     run_r8(chk, repo)
     run_r13_r14(chk, repo)
+    run_r15(chk, repo)
 
 
 def run_more(chk, repo):
@@ -786,3 +787,58 @@ def run_r13_r14(chk, repo):
                           'the missing items are not the NULL value of the record: a filter on such a column (applied before '
                           'the columns are parsed) compares with another text', line=n_.line,
                           witness='$INPUT ID TIME DV FLAG with a three-column file and ACCEPT=(FLAG.EQ.0): the dataset is empty')
+
+
+def run_r15(chk, repo):
+    """R15: NM-TRAN treats DROP and SKIP as synonyms in every position of a $INPUT item (DROP, DROP=NAME, NAME=DROP): every
+    test in parse_column_info that recognises one of the two keywords recognises the other (sibling agreement of the tests)."""
+    R15 = chk.rule('R15', 'parse_column_info: every test that recognises the keyword DROP or SKIP recognises both', floor=2)
+    m = repo.module('pharmpy.model.external.nonmem.parsing')
+    f = m.functions.get('parse_column_info')
+    if f is None:
+        raise AnalysisError('R15: parse_column_info not found')
+    consts = {}
+    for a_ in m.tree.body:
+        if isinstance(a_, ast.Assign) and len(a_.targets) == 1 and isinstance(a_.targets[0], ast.Name) \
+                and isinstance(a_.value, (ast.Tuple, ast.List, ast.Set)) or isinstance(a_, ast.Assign) and isinstance(
+                    a_.value, ast.Call) and dotted(a_.value.func) in ('frozenset', 'set', 'tuple') and a_.value.args:
+            v = a_.value if not isinstance(a_.value, ast.Call) else a_.value.args[0]
+            if isinstance(v, (ast.Tuple, ast.List, ast.Set)) and isinstance(a_.targets[0], ast.Name):
+                consts[a_.targets[0].id] = {e.value for e in v.elts if isinstance(e, ast.Constant) and isinstance(e.value, str)}
+    local = {}
+    for a_ in walk_no_nested(f.node):
+        if isinstance(a_, ast.Assign) and len(a_.targets) == 1 and isinstance(a_.targets[0], ast.Name) \
+                and isinstance(a_.value, (ast.Tuple, ast.List, ast.Set)):
+            local[a_.targets[0].id] = {e.value for e in a_.value.elts if isinstance(e, ast.Constant) and isinstance(e.value, str)}
+
+    def atoms(test):
+        # one keyword test per compared subject: `key == 'DROP' or key == 'SKIP'`, `key in (..)`, `key in _DROP_KEYWORDS`
+        out = {}
+        for c in ast.walk(test):
+            if isinstance(c, ast.Compare) and len(c.ops) == 1:
+                subj, other = c.left, c.comparators[0]
+                if isinstance(subj, ast.Constant):
+                    subj, other = other, subj
+                words = set()
+                if isinstance(other, ast.Constant) and isinstance(other.value, str):
+                    words = {other.value}
+                elif isinstance(other, (ast.Tuple, ast.List, ast.Set)):
+                    words = {e.value for e in other.elts if isinstance(e, ast.Constant) and isinstance(e.value, str)}
+                elif isinstance(other, ast.Name):
+                    words = local.get(other.id, consts.get(other.id, set()))
+                if words & {'DROP', 'SKIP'}:
+                    out.setdefault(unparse(subj), set()).update(words)
+        return out
+    # maximal boolean expressions, wherever they stand (if / while / conditional expression / a flag assigned once and tested later)
+    inner = {id(v) for b in walk_no_nested(f.node) if isinstance(b, ast.BoolOp) for v in b.values}
+    for node in walk_no_nested(f.node):
+        if isinstance(node, (ast.BoolOp, ast.Compare)) and id(node) not in inner:
+            for subj, words in atoms(node).items():
+                ok = {'DROP', 'SKIP'} <= words
+                chk.instance(R15, f'parse_column_info: test on {subj} accepts {sorted(words & {"DROP", "SKIP"})}: {ok}')
+                if not ok:
+                    chk.violation(R15, m.rel, f.qualname, f'{subj}: {sorted(words)}',
+                                  f'the test on {subj} recognises only {sorted(words & {"DROP", "SKIP"})}; NM-TRAN accepts DROP and '
+                                  f'SKIP in every position', line=node.lineno,
+                                  witness='$INPUT ID TIME AMT=SKIP WGT DV: the column is read as a synonym named SKIP instead of '
+                                          'being dropped')
